@@ -2,6 +2,9 @@ package model
 
 import (
 	"fmt"
+
+	structform "github.com/elastic/go-structform"
+
 	"math"
 	"reflect"
 	"strings"
@@ -52,6 +55,61 @@ type Strs struct {
 	Any    interface{}
 }
 
+type InlineMap struct {
+	A string
+	M map[string]interface{} `struct:",inline"`
+	Z int
+}
+
+type InlineTyped struct {
+	S map[string]string `struct:",inline"`
+	N map[string]int    `struct:",inline"`
+	B map[string]bool   `struct:",inline"`
+}
+
+type OmitAll struct {
+	S string            `struct:"s,omitempty"`
+	L []int             `struct:"l,omitempty"`
+	M map[string]string `struct:"m,omitempty"`
+	P *Inner            `struct:"p,omitempty"`
+	I interface{}       `struct:"i,omitempty"`
+	E []string          `struct:"e,omitempty"`
+	B bool
+	F float32
+}
+
+type Ptrs struct {
+	PS *string
+	PI *int64
+	PP **string
+	PL *[]string
+	PM *map[string]int
+	PN *Inner
+}
+
+
+// Celsius implements gotype.Folder (custom folding through the interface).
+type Celsius float64
+
+func (c Celsius) Fold(v structform.ExtVisitor) error {
+	if err := v.OnObjectStart(1, structform.AnyType); err != nil {
+		return err
+	}
+	if err := v.OnKey("celsius"); err != nil {
+		return err
+	}
+	if err := v.OnFloat64(float64(c)); err != nil {
+		return err
+	}
+	return v.OnObjectFinished()
+}
+
+type WithFolder struct {
+	Name string
+	T    Celsius
+	TS   []Celsius
+}
+
 type NamedSlice []int
 type NamedMap map[string]string
 
@@ -69,6 +127,29 @@ type TypeEntry struct {
 	Supported bool
 	// HasStrings: the type can hold strings/keys (aliasing checks).
 	HasStrings bool
+	// FoldOnly: the library can fold values of the type but does not accept it
+	// as an unfold target (inline maps, Folder implementations).
+	FoldOnly bool
+}
+
+// PickType draws a catalogue type. forUnfold excludes fold-only types.
+func PickType(c *simkit.Choices, forUnfold, needStrings, allowUnsupported bool) *TypeEntry {
+	for i := 0; ; i++ {
+		te := &Catalogue[c.N(len(Catalogue))]
+		if i > 200 {
+			return &Catalogue[1] // string: bounded under a replayed trace
+		}
+		if !te.Supported && !allowUnsupported {
+			continue
+		}
+		if forUnfold && te.FoldOnly {
+			continue
+		}
+		if needStrings && !te.HasStrings {
+			continue
+		}
+		return te
+	}
 }
 
 type guarded[T any] struct {
@@ -270,10 +351,75 @@ var Catalogue = []TypeEntry{
 	mk("[]*Inner", true, func(c *simkit.Choices) []*Inner {
 		return genSlice(c, func(c *simkit.Choices) *Inner { i := genInner(c); return &i })
 	}),
+	foldOnly(mk("InlineMap", true, func(c *simkit.Choices) InlineMap {
+		return InlineMap{A: genStr(c), M: genMap(c, func(c *simkit.Choices) interface{} { return genIfc(c, 1) }), Z: c.N(100)}
+	})),
+	foldOnly(mk("InlineTyped", true, func(c *simkit.Choices) InlineTyped {
+		return InlineTyped{S: genMap(c, genStr), N: genMap(c, func(c *simkit.Choices) int { return c.N(100) }), B: genMap(c, func(c *simkit.Choices) bool { return c.Bool() })}
+	})),
+	mk("OmitAll", true, func(c *simkit.Choices) OmitAll {
+		o := OmitAll{B: c.Bool(), F: float32(c.N(100)) / 4}
+		if c.Bool() {
+			o.S = genStr(c)
+		}
+		if c.Bool() {
+			o.L = genSlice(c, func(c *simkit.Choices) int { return c.N(100) })
+		}
+		if c.Bool() {
+			o.M = genMap(c, genStr)
+		}
+		if c.Bool() {
+			i := genInner(c)
+			o.P = &i
+		}
+		if c.Bool() {
+			o.I = genIfc(c, 1)
+		}
+		if c.Bool() {
+			o.E = genSlice(c, genStr)
+		}
+		return o
+	}),
+	mk("Ptrs", true, func(c *simkit.Choices) Ptrs {
+		var p Ptrs
+		if c.Bool() {
+			s := genStr(c)
+			p.PS = &s
+		}
+		if c.Bool() {
+			i := genI(c)
+			p.PI = &i
+		}
+		if c.Bool() {
+			s := genStr(c)
+			ps := &s
+			p.PP = &ps
+		}
+		if c.Bool() {
+			l := genSlice(c, genStr)
+			p.PL = &l
+		}
+		if c.Bool() {
+			m := genMap(c, func(c *simkit.Choices) int { return c.N(100) })
+			p.PM = &m
+		}
+		if c.Bool() {
+			i := genInner(c)
+			p.PN = &i
+		}
+		return p
+	}),
+	// no self-referential type: folding one overflows the stack while compiling
+	// the folder (a defect of the unclaimed property C11; fatal, not recoverable)
+	foldOnly(mk("WithFolder", true, func(c *simkit.Choices) WithFolder {
+		return WithFolder{Name: genStr(c), T: Celsius(c.N(100)), TS: genSlice(c, func(c *simkit.Choices) Celsius { return Celsius(c.N(50)) })}
+	})),
 	unsupported(mk("map[int]string", true, func(c *simkit.Choices) map[int]string { return nil })),
 }
 
 func unsupported(t TypeEntry) TypeEntry { t.Supported = false; return t }
+func foldOnly(t TypeEntry) TypeEntry    { t.FoldOnly = true; return t }
+
 
 // TypeByName finds a catalogue entry.
 func TypeByName(name string) *TypeEntry {
